@@ -287,8 +287,12 @@ class RZILTransformer(Transformer):
                 )
             if src.value_type.bit_width != 64:
                 src = self.init_a_cast(ValueType(False, 64), src)
-            return self.add_op(
-                Assignment("set_return_val", AssignmentType.ASSIGN, ret_val, src)
+            # Hybrids in the returned expression (return f(x); return i++;) are executed here,
+            # not at the start of the routine.
+            return self.chk_hybrid_dep(
+                self.add_op(
+                    Assignment("set_return_val", AssignmentType.ASSIGN, ret_val, src)
+                )
             )
         if isinstance(items[0], Token) and items[0].type in [
             "GOTO",
